@@ -139,7 +139,10 @@ static const uint64_t ZOO_FLAG = 1ull << 62;
 static int g_regime[NZOO];
 // worst report-to-report energy increase / scale and worst |E + dissipated - initial| / scale measured on the clean tree
 // (see notes/C11.md); bounds are these x 10
-static const double ZOO_UP = 1, ZOO_ACCOUNT = 1;   // ZOO-CONSTANTS
+// ZOO-CONSTANTS-BEGIN (per class, seeds 1..24 x 100 zoo cases, worst value rounded up, floored at 1e-4 of the energy scale)
+static const double ZOO_UP[NZOO] = {0.0001, 0.00025, 0.00017, 0.00052, 0.0001, 0.0001, 0.0001, 0.0025, 0.00046, 0.0001, 0.0001, 0.0001, 0.0026, 0.00087},
+    ZOO_ACCOUNT[NZOO] = {0.0001, 0.0001, 0.0001, 0.0001, 0.0001, 0.00034, 0.0001, 0.0072, 0.0001, 0.0001, 0.0001, 0.0001, 0.012, 0.0001};
+// ZOO-CONSTANTS-END
 
 class ZooMobilityDamper : public Force::Custom::Implementation {
 public:
@@ -208,7 +211,7 @@ static void runCase(uint64_t caseSeed) {
     // ---- zoo model
     std::function<void(State&)> zooIC; std::function<bool(const State&)> zooProbe;   // probe: is the regime active in this state?
     std::function<double(const State&)> zooDissipated;
-    bool zooLower = false, zooUpper = false;
+    bool zooLower = false, zooUpper = false; double zooRinit = 0;
     ContactTrackerSubsystem* tracker = nullptr; CompliantContactSubsystem* contact = nullptr; bool contactHigh = false;
     if (zoo) {
         auto rigid = [&]() { Real m = r.range(0.8, 2.5); return Body::Rigid(MassProperties(m, rv(r, 0.15), m * UnitInertia(r.range(0.05, 0.2), r.range(0.05, 0.2), r.range(0.05, 0.2)))); };
@@ -285,7 +288,7 @@ static void runCase(uint64_t caseSeed) {
             double R; sphereSetup(R);
             tracker = new ContactTrackerSubsystem(sys); contact = new CompliantContactSubsystem(sys, *tracker);
             contact->setTrackDissipatedEnergy(true);
-            const double c = r.range(0.01, 0.05);
+            const double c = zc == 7 ? r.range(0.01, 0.05) : r.range(0.1, 0.2);   // Hertz: low class only (known yank defect)
             matter.Ground().updBody().addContactSurface(planeUp, ContactSurface(ContactGeometry::HalfSpace(), ContactMaterial(r.range(2e5, 2e6), c, 0, 0, 0)));
             if (zc == 7) M.bodies[1].updBody().addContactSurface(Transform(), ContactSurface(ContactGeometry::Sphere(R), ContactMaterial(r.range(2e5, 2e6), c, 0, 0, 0)));
             else M.bodies[1].updBody().addContactSurface(Transform(), ContactSurface(ContactGeometry::TriangleMesh(PolygonalMesh::createSphereMesh(R, 2)), ContactMaterial(r.range(2e5, 2e6), c, 0, 0, 0), 0.02));
@@ -295,7 +298,7 @@ static void runCase(uint64_t caseSeed) {
             double R; sphereSetup(R);
             GeneralContactSubsystem* gc = new GeneralContactSubsystem(sys);
             ContactSetIndex set = gc->createContactSet();
-            const double c = r.range(0.01, 0.05);
+            const double c = r.range(0.1, 0.2);      // rebound speeds here stay below 1/(1.5 c) >= 3.3 m/s
             if (zc == 8) {
                 gc->addBody(set, M.bodies[1], ContactGeometry::Sphere(R), Transform());
                 gc->addBody(set, matter.Ground(), ContactGeometry::HalfSpace(), planeUp);
@@ -310,9 +313,9 @@ static void runCase(uint64_t caseSeed) {
             }
             break; }
         case 9: {
-            double R; sphereSetup(R);
+            double R; sphereSetup(R); zooRinit = R;
             SmoothSphereHalfSpaceForce ss(M.forces);
-            ss.setStiffness(r.range(2e5, 2e6)); ss.setDissipation(r.range(0.01, 0.05)); ss.setStaticFriction(0); ss.setDynamicFriction(0); ss.setViscousFriction(0);
+            ss.setStiffness(r.range(2e5, 2e6)); ss.setDissipation(r.range(0.2, 0.5)); ss.setStaticFriction(0); ss.setDynamicFriction(0); ss.setViscousFriction(0);
             ss.setContactSphereBody(M.bodies[1]); ss.setContactSphereLocationInBody(Vec3(0)); ss.setContactSphereRadius(R);
             ss.setContactHalfSpaceBody(matter.Ground()); ss.setContactHalfSpaceFrame(planeUp);
             break; }
@@ -465,8 +468,9 @@ static void runCase(uint64_t caseSeed) {
     // ---- simulate, sampling energy and momentum at report times
     const double T = zoo ? r.range(0.8, 1.6) : r.range(1.0, 2.5);
     const int NREP = std::getenv("C11_NREP") ? std::atoi(std::getenv("C11_NREP")) : zoo ? 160 : 25;      // zoo: fine sampling, so that short regime visits (a stop contact) are seen
-    bool regimeSeen = false;
+    bool regimeSeen = false; std::vector<double> Eout;   // zoo class 9: energies at out-of-contact instants only
     struct Traj { std::vector<double> E, KE, PE, D; std::vector<SpatialVec> P; State fin; std::string fail; double maxR = 1; int steps = 0; };
+    Traj tr1; Traj& tr = tr1; const double zooR = zooRinit;
     auto runSim = [&](double accuracy, Traj& tr, bool wantFinal) {
         std::unique_ptr<Integrator> ig(makeIntegrator(integ, sys));
         ig->setAccuracy(accuracy);
@@ -479,6 +483,7 @@ static void runCase(uint64_t caseSeed) {
             if (contact) d += contact->getDissipatedEnergy(st);
             tr.D.push_back(d);
             if (zoo && zooProbe && zooProbe(st)) regimeSeen = true;
+            if (zc == 9 && &tr == &tr1 && M.bodies[1].getBodyOriginLocation(st)[1] > zooR + 0.03) Eout.push_back(tr.E.back());
             if (std::getenv("C11_DUMPY")) std::fprintf(stderr, "   t=%.4f y=%.5f vy=%.4f E=%.6g steps=%d\n", st.getTime(), M.bodies[1].getBodyOriginLocation(st)[1], M.bodies[1].getBodyOriginVelocity(st)[1], tr.E.back(), ig->getNumStepsTaken());
             for (int i = 1; i <= nbAll; ++i) tr.maxR = std::max(tr.maxR, M.bodies[i].getBodyOriginLocation(st).norm());
         };
@@ -500,7 +505,6 @@ static void runCase(uint64_t caseSeed) {
             if (tr.fail.empty() && wantFinal) { tr.fin = ig->getState(); sys.realize(tr.fin, Stage::Acceleration); }
         } catch (const std::exception& e) { tr.fail = std::string("threw:") + e.what(); }
     };
-    Traj tr;
     if (ncons < 0) tr.fail = "projectFailed"; else runSim(acc, tr, true);
     // second run of the SAME problem at accuracy/100 (conservative scenarios): the drift must come down with the accuracy
     Traj tr2; bool second = tr.fail.empty() && scn <= 2 && accExp + 2 <= accExp2Max;
@@ -614,12 +618,19 @@ static void runCase(uint64_t caseSeed) {
         if (regimeSeen) {
             ++g_regime[zc];
             double up = 0, drift = 0;
-            for (size_t i = 1; i < E.size(); ++i) up = std::max(up, E[i] - E[i - 1]);
-            up = std::max(up, E.back() - E[0]);
-            vh::P("energy_nonincreasing_dissipative_element", std::string("traj.zoo.monotone.") + ZOO[zc], up / scale, 10 * ZOO_UP);
+            // SmoothSphereHalfSpaceForce documents its potential energy as an approximation (tanh-smoothed Hertz force): it is
+            // judged on out-of-contact instants only, where the approximation plays no role
+            const std::vector<double>& Ej = zc == 9 ? Eout : E;
+            for (size_t i = 1; i < Ej.size(); ++i) up = std::max(up, Ej[i] - Ej[i - 1]);
+            if (!Ej.empty()) up = std::max(up, Ej.back() - Ej[0]);
+            // RungeKuttaFeldberg accepts grossly wrong steps across the onset of a stiff one-sided force (joint stop, compliant contact;
+            // notes/C11.md, C20-level finding): those classes integrated with it are judged under their own key
+            const bool contactClass = (zc >= 1 && zc <= 3) || zc == 7 || zc == 8 || zc == 9 || zc == 10 || zc == 12 || zc == 13;   // one-sided stiff force onsets: stops and contacts
+            const std::string zk = (contactClass && integ == 1) ? std::string("onsetWithRungeKuttaFeldberg") : std::string(ZOO[zc]);
+            vh::P("energy_nonincreasing_dissipative_element", std::string("traj.zoo.monotone.") + zk, up / scale, 10 * ZOO_UP[zc]);
             if (zooDissipated || contact) {
                 for (size_t i = 0; i < E.size(); ++i) drift = std::max(drift, std::abs(E[i] + Dv[i] - E[0] - Dv[0]));
-                vh::P("energy_plus_dissipated_constant", std::string("traj.zoo.account.") + ZOO[zc], drift / scale, 10 * ZOO_ACCOUNT);
+                vh::P("energy_plus_dissipated_constant", std::string("traj.zoo.account.") + zk, drift / scale, 10 * ZOO_ACCOUNT[zc]);
             }
         }
     } else if (scn >= 4) {
